@@ -37,6 +37,7 @@ RULE = (
     ' Round 10: `prior_session` (the Persistence object was started and stopped before) and `debug_log` for special paths and a set of contents.'
     ' Round 11: number spellings with exponents no number type holds, at every level; every mutated content also with warnings as errors (all modules).'
     ' Round 12: `file_name`; specials missing-dangling-symlink / missing-concurrent-loads / missing-other-path; a pass under `python -O`.'
+    ' Round 13: specials other-path-native/legacy-unwritable-own.'
 )
 ASSUMPTIONS = ["real files in a scratch directory; running as root, so permission faults are represented by the directory case only"]
 SHRINK_STRINGS = ("data",)
